@@ -191,9 +191,21 @@ async fn decode_and_verify_responses(
 pub struct StoreError {}
 // the header store as seen by the server: which heights are stored and the stored header of each (C19-C21 are about the store itself)
 pub uninterp spec fn hdr_at(h: u64) -> ExtendedHeader;
-pub uninterp spec fn resp_of(h: ExtendedHeader) -> HeaderResponse;
-pub uninterp spec fn not_found_resp() -> HeaderResponse;
-pub uninterp spec fn invalid_resp() -> HeaderResponse;
+// protobuf encoding of a header (Protobuf::encode_vec, A-prost)
+pub uninterp spec fn enc_spec(h: ExtendedHeader) -> Seq<u8>;
+pub uninterp spec fn code_of(s: StatusCode) -> i32;
+// prost: `StatusCode::X.into()` yields the discriminant and status_code() maps it back
+#[verifier::external_body]
+pub proof fn axiom_status_roundtrip(s: StatusCode) ensures status_of(code_of(s)) == s { }
+pub open spec fn is_resp_of(r: HeaderResponse, h: ExtendedHeader) -> bool { status_of(r.status_code) == StatusCode::Ok && r.body@ == enc_spec(h) }
+pub open spec fn is_not_found(r: HeaderResponse) -> bool { status_of(r.status_code) == StatusCode::NotFound && r.body@.len() == 0 }
+pub open spec fn is_invalid(r: HeaderResponse) -> bool { status_of(r.status_code) == StatusCode::Invalid && r.body@.len() == 0 }
+impl StatusCode {
+    #[verifier::external_body]
+    pub fn into(self) -> (r: i32) ensures r == code_of(self) { unimplemented!() }
+}
+#[verifier::external_body]
+pub fn vx_encode_vec(h: &ExtendedHeader) -> (r: Vec<u8>) ensures r@ == enc_spec(*h) { unimplemented!() }
 pub struct Store { pub stored: Ghost<ISet<int>>, pub head: Ghost<Option<u64>> }
 impl Store {
     #[verifier::external_body]
@@ -205,13 +217,35 @@ impl Store {
         ensures r.is_ok() == self.head@.is_some(), r.is_ok() ==> r.unwrap() == hdr_at(self.head@.unwrap())
     { unimplemented!() }
 }
-impl ExtendedHeader {
-    #[verifier::external_body]
-    pub fn to_header_response(&self) -> (r: HeaderResponse) ensures r == resp_of(*self) { unimplemented!() }
+pub trait ExtendedHeaderExt {
+    spec fn eh(&self) -> ExtendedHeader;
+    fn to_header_response(&self) -> (r: HeaderResponse) ensures is_resp_of(r, self.eh());
+}
+impl ExtendedHeaderExt for ExtendedHeader {
+    open spec fn eh(&self) -> ExtendedHeader { *self }
+//@fn impl ExtendedHeaderExt for ExtendedHeader :: to_header_response @ node/src/p2p/header_ex/utils.rs
+//@props C29
+    fn to_header_response(&self) -> (r: HeaderResponse)
+//@sub E9 "self.clone().encode_vec()" => "vx_encode_vec(self)"
+//@hint entry
+        proof { axiom_status_roundtrip(StatusCode::Ok); }
+//@end
 }
 impl HeaderResponse {
-    #[verifier::external_body]
-    pub fn not_found() -> (r: HeaderResponse) ensures r == not_found_resp() { unimplemented!() }
+//@fn impl HeaderResponseExt for HeaderResponse :: not_found @ node/src/p2p/header_ex/utils.rs
+//@props C29
+//@macro vec => Vec::new()
+    pub fn not_found() -> (r: HeaderResponse) ensures is_not_found(r)
+//@hint entry
+        proof { axiom_status_roundtrip(StatusCode::NotFound); }
+//@end
+//@fn impl HeaderResponseExt for HeaderResponse :: invalid @ node/src/p2p/header_ex/utils.rs
+//@props C29
+//@macro vec => Vec::new()
+    pub fn invalid() -> (r: HeaderResponse) ensures is_invalid(r)
+//@hint entry
+        proof { axiom_status_roundtrip(StatusCode::Invalid); }
+//@end
 }
 pub struct Channel {}
 //@const MAX_HEADERS_AMOUNT_RESPONSE @ node/src/p2p/header_ex/server.rs
@@ -247,8 +281,8 @@ pub proof fn lemma_run_len_prefix(stored: ISet<int>, origin: int, n: int, k: int
 pub open spec fn by_height_ok(stored: ISet<int>, origin: u64, amount: u64, resp: Seq<HeaderResponse>) -> bool {
     let n = if amount <= MAX_HEADERS_AMOUNT_RESPONSE { amount as int } else { MAX_HEADERS_AMOUNT_RESPONSE as int };
     let k = run_len(stored, origin as int, if origin + n <= u64::MAX { n } else { u64::MAX - origin });
-    &&& (k == 0 ==> resp == seq![not_found_resp()])
-    &&& (k > 0 ==> resp.len() == k && forall|j: int| 0 <= j < k ==> #[trigger] resp[j] == resp_of(hdr_at((origin + j) as u64)))
+    &&& (k == 0 ==> resp.len() == 1 && is_not_found(resp[0]))
+    &&& (k > 0 ==> resp.len() == k && forall|j: int| 0 <= j < k ==> is_resp_of(#[trigger] resp[j], hdr_at((origin + j) as u64)))
 }
 
 //@fn impl<S, R> HeaderExServerHandler<S, R> :: handle_request_by_height @ node/src/p2p/header_ex/server.rs
@@ -269,7 +303,7 @@ async fn handle_request_by_height_task(store: &Store, channel: Channel, origin: 
                         amount == (if amount0 <= MAX_HEADERS_AMOUNT_RESPONSE { amount0 } else { MAX_HEADERS_AMOUNT_RESPONSE }),
                         responses@.len() <= __i1 - origin,
                         forall|i: int| origin <= i < origin + responses@.len() ==> store.stored@.contains(i),
-                        forall|j: int| 0 <= j < responses@.len() ==> #[trigger] responses@[j] == resp_of(hdr_at((origin + j) as u64)),
+                        forall|j: int| 0 <= j < responses@.len() ==> is_resp_of(#[trigger] responses@[j], hdr_at((origin + j) as u64)),
                     ensures
                         responses@.len() == __i1_end - origin || !store.stored@.contains(origin + responses@.len()),
                     decreases __i1_end - __i1
@@ -281,7 +315,7 @@ async fn handle_request_by_height_task(store: &Store, channel: Channel, origin: 
                 }
 //@hint before "(channel, responses)"
                 proof {
-                    if run_len(store.stored@, origin as int, __i1_end - origin) == 0 { assert(responses@ =~= seq![not_found_resp()]); }
+                    if run_len(store.stored@, origin as int, __i1_end - origin) == 0 { assert(responses@.len() == 1 && is_not_found(responses@[0])); }
                 }
 //@end
 
@@ -301,7 +335,7 @@ pub fn vx_vec1(x: HeaderResponse) -> (r: Vec<HeaderResponse>) ensures r@ == seq!
 //@block "async move {"
 //@macro vec => vx_vec1($args)
 async fn handle_request_current_head_task(store: &Store, channel: Channel) -> (res: (Channel, Vec<HeaderResponse>))
-    ensures res.1@ == seq![match store.head@ { Some(h) => resp_of(hdr_at(h)), None => not_found_resp() }]
+    ensures res.1@.len() == 1 && (match store.head@ { Some(h) => is_resp_of(res.1@[0], hdr_at(h)), None => is_not_found(res.1@[0]) })
 //@sub E8 "store .get_head() .await .map(|head| head.to_header_response()) .unwrap_or_else(|_| HeaderResponse::not_found())" => "(match store.get_head().await { Ok(head) => head.to_header_response(), Err(_) => HeaderResponse::not_found() })"
 //@end
 
@@ -310,7 +344,7 @@ async fn handle_request_current_head_task(store: &Store, channel: Channel) -> (r
 //@block "async move {"
 //@macro vec => vx_vec1($args)
 async fn handle_request_by_hash_task(store: &Store, channel: Channel, hash: TmHash) -> (res: (Channel, Vec<HeaderResponse>))
-    ensures res.1@ == seq![match stored_by_hash(*store, hash) { Some(h) => resp_of(h), None => not_found_resp() }]
+    ensures res.1@.len() == 1 && (match stored_by_hash(*store, hash) { Some(h) => is_resp_of(res.1@[0], h), None => is_not_found(res.1@[0]) })
 //@sub E8 "store .get_by_hash(&hash) .await .map(|head| head.to_header_response()) .unwrap_or_else(|_| HeaderResponse::not_found())" => "(match store.get_by_hash(&hash).await { Ok(head) => head.to_header_response(), Err(_) => HeaderResponse::not_found() })"
 //@end
 
